@@ -13,5 +13,12 @@ for m in mutants/*.patch; do
   r=$(MUT_LINES=1 tools/mutant_run.sh "$m" "$p" 2>&1 | tail -1)
   n=$((n+1)); echo "$id: $r"; echo "$r" | grep -q "exit=1" || fail=$((fail+1))
 done
-echo "selfcheck mutants: $n changes, $fail not detected"
+# the unchanged copy must stay quiet (an empty patch)
+: > /tmp/qsim-empty.patch
+for p in C02 C03 C08 C09 C11 C12 C13 C18; do
+  r=$(MUT_LINES=1 tools/mutant_run.sh /tmp/qsim-empty.patch "$p" 2>&1 | tail -1)
+  echo "unchanged/$p: $r"; echo "$r" | grep -q "exit=0" || fail=$((fail+1))
+done
+rm -f /tmp/qsim-empty.patch
+echo "selfcheck mutants: $n changes + 8 unchanged runs, $fail unexpected outcomes"
 [ $fail = 0 ]
